@@ -136,6 +136,7 @@ def atlas_body_docs():
                                                                                 "application/x-www-form-urlencoded": {"schema": {"$ref": REF + "Other"}}}})},
         "/multipart/model": {"post": op("multipart_model", body={"content": {"multipart/form-data": {"schema": {"$ref": REF + "Upload"}}}})},
         "/multipart/nullfirst": {"post": op("multipart_null_first", body={"content": {"multipart/form-data": {"schema": {"$ref": REF + "NullFirst"}}}})},
+        "/multipart/files": {"post": op("multipart_file_list", body={"content": {"multipart/form-data": {"schema": {"$ref": REF + "UploadMany"}}}})},
         "/octet/raw": {"post": op("octet_raw", body={"content": {"application/octet-stream": {"schema": {"type": "string", "format": "binary"}}}})},
         "/byref/json": {"post": op("body_by_ref", body={"$ref": "#/components/requestBodies/ItemBody"})},
         "/byref/chain": {"put": op("body_by_ref_chain", body={"$ref": "#/components/requestBodies/Alias"})},
@@ -152,7 +153,8 @@ def atlas_body_docs():
     nullfirst = obj({"a": {"anyOf": [NULL, {"type": "string"}]}, "b": any_of({"type": "string"}, NULL)}, required=["a", "b"])
     extra = {"components": {"requestBodies": {"ItemBody": {"content": {"application/json": {"schema": {"$ref": REF + "Item"}}}, "required": True},
                                                "Alias": {"$ref": "#/components/requestBodies/ItemBody"}}}}
-    return [("bodies", doc(paths, schemas={"Upload": upload, "NullFirst": nullfirst}, extra=extra))]
+    upload_many = obj({"label": {"type": "string"}, "scans": arr({"type": "string", "format": "binary"})}, required=["label"])
+    return [("bodies", doc(paths, schemas={"Upload": upload, "NullFirst": nullfirst, "UploadMany": upload_many}, extra=extra))]
 
 
 def atlas_response_docs():
